@@ -710,6 +710,10 @@ def EnvironmentalScore (u0 : Nat) (u1 : Nat) (u2 : Nat) (u3 : Nat) : Nat :=
 def tbl_order : (List (List (List Nat))) :=
   [[([65, 86] : List Nat), ([65, 67] : List Nat), ([65, 117] : List Nat), ([67] : List Nat), ([73] : List Nat), ([65] : List Nat)], [([69] : List Nat), ([82, 76] : List Nat), ([82, 67] : List Nat)], [([67, 68, 80] : List Nat), ([84, 68] : List Nat), ([67, 82] : List Nat), ([73, 82] : List Nat), ([65, 82] : List Nat)]]
 
+/-- import paths of the package's source files (alias=path when renamed) -/
+def pkg_imports : List String :=
+  ["errors", "fmt", "math", "strings", "sync", "unsafe"]
+
 /-- fields of the object type (name:type), in declaration order -/
 def obj_fields : List String :=
   ["u0:uint8", "u1:uint8", "u2:uint8", "u3:uint8"]
